@@ -389,6 +389,19 @@ func (p *Peer) SendMsg(typ byte, body []byte, skipTranscript bool) error {
 	return nil
 }
 
+// SwitchKeysSilently activates the pending write protection as SendCCS does, without sending the record.
+func (p *Peer) SwitchKeysSilently() {
+	p.Sent = append(p.Sent, "CCS0")
+	if p.nextW != nil {
+		p.wProt, p.nextW = p.nextW, nil
+		p.wSeq = 0
+		p.wEpoch++
+	} else if p.DTLS {
+		p.wEpoch++
+		p.wSeq = 0
+	}
+}
+
 // SendCCS sends ChangeCipherSpec and activates the pending write protection (if any).
 func (p *Peer) SendCCS() error {
 	p.Sent = append(p.Sent, "CCS")
